@@ -79,7 +79,9 @@ def event_menu(scalar, tier):
             evs += [('hessian', 1)]
     else:
         evs += [('jacobian', 0), ('jacobian', 1)]
-    evs += [('vec_jac', 1), ('jac_vec', 0), ('other',), ('jacobian_utpm', 0), ('other_finish',)]
+    # jacobian(UTPM) with one direction (same number of directions as jacobian(ndarray): shared state keyed on shapes shows)
+    # and with two directions
+    evs += [('vec_jac', 1), ('jac_vec', 0), ('other',), ('jacobian_utpm', 0, 2), ('jacobian_utpm', 0, 1), ('other_finish',)]
     return evs
 
 
@@ -160,7 +162,7 @@ def step_raw(sys_, ev):
     if kind == 'jac_vec':
         return np.asarray(cg.jac_vec(pt, vec(NX, 3, seed)))
     if kind == 'jacobian_utpm':
-        return cg.jacobian(UTPM(PR.curve(seed + 7, 2, 2, pts=(ev[1], 2, 1)))).data
+        return cg.jacobian(UTPM(PR.curve(seed + 7, 2, ev[2] if len(ev) > 2 else 2, pts=(ev[1], 2, 1)))).data
     if kind == 'other':
         cg2, x2, y2 = PR.record(PR.SCENARIOS['view1'], np.array(PR.POINTS[2], dtype=float))
         g = cg2.gradient(np.array(PR.POINTS[1], dtype=float))
@@ -244,7 +246,7 @@ def reference(sys_before_input, prog, ev, seed, M):
     if kind == 'jacobian_utpm':
         Function.cgraph = None
         # one fresh single-use graph per direction (P = 1 each): the reference does not use the P > 1 code path
-        xc = PR.curve(seed + 7, 2, 2, pts=(ev[1], 2, 1))
+        xc = PR.curve(seed + 7, 2, ev[2] if len(ev) > 2 else 2, pts=(ev[1], 2, 1))
         parts = []
         for p in range(xc.shape[1]):
             Function.cgraph = None
